@@ -701,7 +701,7 @@ BENIGN_KINDS = ("benign", "collide")
 BAITS = ["X0", "X1", "X2", "H", "H1", "H2", "P-Q", "to-unicode-X"]
 GOOD = ["Good-H", "Good0-H", "Good1-H", "Good2-H", "to-unicode-Good-H"]
 HOSTILE_KINDS = ["abs", "rel-sibling", "rel-repo", "nul", "dslash", "dot", "long", "toolong", "backslash", "inside",
-                 "prefix-sibling", "symlink"]
+                 "prefix-sibling", "symlink", "lookalike"]
 FONT_SLOTS = ["enc_name", "enc_stream", "usecmap", "usecmap_simple", "tounicode_name", "regord", "basefont",
               "fontname", "resname"]
 IMAGE_SLOTS = ["xobj", "xobj", "xobj", "form", "name_entry", "inline_name", "inline"]
@@ -752,6 +752,14 @@ def mk_hostile(kind, target, rnd, inside, base):
         if base != b"C":
             return up + b"/" + t
         return b"extra/../private/" + t.rsplit(b"/", 1)[-1]
+    if kind == "lookalike":
+        # characters that compatibility normalisation (NFKC/NFKD) or a lossy re-encoding turns into `.` and `/`:
+        # FULLWIDTH FULL STOP / SOLIDUS, SMALL FULL STOP, TWO DOT LEADER, DIVISION SLASH stays (not a separator)
+        dot = rnd.choice(["\uff0e", "\ufe52"]).encode("utf-8")
+        dots = rnd.choice([dot + dot, "\u2025".encode("utf-8")])
+        sl = "\uff0f".encode("utf-8")
+        tt = t.replace(b"/", sl)
+        return rnd.choice([dots + sl + tt, dots + sl + dots + sl + tt, sl + tt, dots + b"/" + tt, b"{R}".replace(b"/", sl) + sl + tt])
     if kind == "inside":
         return inside
     raise ValueError(kind)
